@@ -1,13 +1,13 @@
 package ledger
 
 import (
-	"strings"
-	"os"
 	"context"
 	"errors"
 	"fmt"
 	"math/big"
+	"os"
 	"sort"
+	"strings"
 	"sync"
 	"sync/atomic"
 	"time"
